@@ -168,11 +168,11 @@ Lemma write_same : forall d x vrf prf,
   write alias J (color d) x prf (color d) = write valias J d x vrf d.
 Proof. intros; unfold write; now rewrite !Z.eqb_refl. Qed.
 
-Lemma writes_sim : forall (L W : list reg) outs vrf prf,
-  (forall d v, In d W -> In v L -> v <> d ->
+Lemma writes_sim : forall (L : reg -> Prop) (W : list reg) outs vrf prf,
+  (forall d v, In d W -> L v -> v <> d ->
      (isph d = true /\ isph v = true) \/ conflict alias (color d) (color v) = false) ->
-  (forall v, In v L -> ~ In v W -> prf (color v) = vrf v) ->
-  forall v, In v L ->
+  (forall v, L v -> ~ In v W -> prf (color v) = vrf v) ->
+  forall v, L v ->
     writes alias J (map color W) outs prf (color v) = writes valias J W outs vrf v.
 Proof.
   intros L W; induction W as [|d W IH]; intros outs vrf prf HC HA v Hv; cbn [writes map].
@@ -318,7 +318,8 @@ Proof.
         apply (valias_true color alias (isphys physl) PHYS) in E. destruct E as [E1 [E2 _]].
         rewrite E1, E2 in Hex2; congruence.
     + intros v Hlo.
-      apply (writes_sim color alias (isphys physl) (junk pc) PHYS (live_out_of live pc)); auto.
+      apply (writes_sim color alias (isphys physl) (junk pc) PHYS
+               (fun v => In v (live_out_of live pc))); auto.
       * intros d' v' Hd' Hv' Hne'.
         destruct (chk_pair _ _ _ _ _ _ CHK pc i d' v' Hi Hd' Hv' Hne') as [[_ P] | [Hcf | Hex]]; auto.
         unfold exempt in Hex; rewrite Hm in Hex; discriminate.
